@@ -64,12 +64,12 @@ theorem C30_render_injective_idx (g₁ g₂ : Gram) (hnames : g₁.names = g₂.
   obtain ⟨hrules, hprec⟩ := C30_render_injective g₁ g₂ hn hm₁ ho₁ hn₂ hm₂ ho₂ h
   exact ⟨rules_of_rulesOf hnames hn.2 hr₁ hr₂ hrules, prec_of_precOf hnames hn.2 hr₁ hr₂ hprec⟩
 
-example : ∃ g₂ : Gram, g₂.names = exampleGram.names ∧ render g₂ ≠ render exampleGram :=
-  ⟨{ exampleGram with prec := [] }, rfl, by
-    intro h
-    have := (C30_render_injective_idx _ exampleGram rfl (by decide) (by decide) (by decide) (by decide)
-      (by decide) (by decide) (by decide) h).2
-    exact absurd this (by decide)⟩
+/-- non-vacuity: all hypotheses hold for a concrete pair, and the conclusion separates them -/
+example : render { exampleGram with prec := [] } ≠ render exampleGram := by
+  intro h
+  have := (C30_render_injective_idx { exampleGram with prec := [] } exampleGram rfl (by decide) (by decide)
+    (by decide) (by decide) (by decide) (by decide) (by decide) h).2
+  exact absurd this (by decide)
 
 /-- `IdsWF` cannot be weakened to "every spelling is a token": with a nonterminal spelled like a
 terminal's ID (the real compiler accepts the nonterminal name `CHAR_A` next to the terminal `'a'`,
